@@ -274,6 +274,8 @@ def gen_repeating_budget(r):
         files[src['file']] = '\n'.join(text) + '\n'
         sources.append(src)
         occs.extend(rows)
+    if not occs:
+        return gen_repeating_budget(r)        # every line was skipped and no one-off row drawn (≈ 1 in 500): nothing to write rules about
     supp = r.random() < 0.3
     if supp:
         sources.insert(r.randint(0, len(sources)), dict(ORDERS_SOURCE))
@@ -352,6 +354,188 @@ def gen_repeating_budget(r):
     return {'files': files, 'kind': 'rules', 'probes': probes, 'shape': shape, 'probe_oracle': False}
 
 
+# ---- third stream: the bank's own SPELLING of a line ------------------------------------------------------------------------------
+# A statement export pads its columns and decorates its lines: runs of blanks, a tab, a no-break space between the words, `*` / `#` /
+# `.` at either end, a store number behind, any capitalisation. The parsers hand the cell to the rules as it is (only the blanks AROUND
+# the cell are dropped), so a rule may depend on exactly that spelling — `contains("AUTOPAY  PMT")` copied from the export,
+# `regex("ACH\s{2,}DEBIT")`, `regex("\*$")` — and equally may only match when the spelling is regular (`contains("AUTOPAY PMT")`,
+# `regex("ACH\sDEBIT")`, `split(" ", 1) == "DEBIT"`). Every command has to evaluate the rules on that same text: a command that first
+# tidies the description (collapses blanks, strips decoration, trims a store number …) classifies such a line differently.
+
+SPELL_BASES = [['CHASE', 'AUTOPAY', 'PMT'], ['ACH', 'DEBIT', 'SVC', 'CHG'], ['SQ', '*CORNER', 'BAKERY'], ['TST*', 'BLUE', 'BOTTLE'],
+               ['POS', 'PURCHASE', 'WHOLEFDS'], ['CHECKCARD', '0412', 'SHELL', 'OIL'], ['AMZN', 'MKTP', 'US*2K4'],
+               ['PAYPAL', '*SPOTIFY', 'AB'], ['CAFÉ', 'ROUGE', 'PARIS'], ['UBER', 'TRIP', 'HELP.UBER.COM'], ['WIRE', 'TRANSFER', 'FEE'],
+               ['ATM', 'WITHDRAWAL', '004821']]
+GAPS = [' ', '  ', '  ', '   ', '      ', '\t', ' \t', '\u00a0', ' \u00a0 ']
+HEADS = ['', '', '', '', '*', '#', '.', '* ', '#  ', '(']
+TAILS = ['', '', '', '', '*', ' *', '.', '...', ' #1234', '  #77', ' -', ')', ' 00412']
+SPELL_CATEGORIES = ['Bills', 'Fees', 'Food', 'Shopping', 'Transport', 'Cash']
+
+
+def spell(r, base, tag=None, regular=False):
+    """one spelling of the words of `base` (with `tag` as an extra word somewhere behind the first): capitalisation, the gap after each
+    word, decoration in front and behind. Never blank at either end (a parsed cell is stripped), no comma, no quote."""
+    toks = list(base)
+    if tag:
+        toks.insert(r.randint(1, len(toks)), tag)
+    case = r.choice(['upper', 'upper', 'upper', 'title', 'lower', 'mixed'])
+    if case == 'title':
+        toks = [t.title() for t in toks]
+    elif case == 'lower':
+        toks = [t.lower() for t in toks]
+    elif case == 'mixed':
+        toks = [r.choice([t, t.lower(), t.title()]) for t in toks]
+    gaps = [' ' if (regular or r.random() < 0.35) else r.choice(GAPS) for _ in toks[:-1]]
+    head, tail = ('', '') if regular else (r.choice(HEADS), r.choice(TAILS))
+    text = head + ''.join(t + g for t, g in zip(toks, gaps + ['']))+ tail
+    return {'text': text, 'toks': toks, 'gaps': gaps, 'head': head, 'tail': tail}
+
+
+def str_lit(s):
+    """s as a string literal of the rule language (a Python literal): backslash, quote, tab escaped; everything else as it is"""
+    return '"' + s.replace('\\', '\\\\').replace('"', '\\"').replace('\t', '\\t') + '"'
+
+
+def rx_lit(pattern):
+    return str_lit(pattern)
+
+
+def rx(s):
+    import re
+    return re.escape(s)
+
+
+def spelling_atoms(r, sp):
+    """(kind, condition) for conditions that depend on HOW the line `sp` is spelled, all written out from the line itself: true of the
+    line because of an irregularity it has, or true of it only because it is regular there. Kinds name what the condition looks at."""
+    import re
+    toks, gaps = sp['toks'], sp['gaps']
+    i = r.randrange(len(gaps))
+    a, g, b = toks[i], gaps[i], toks[i + 1]
+    up_to = sp['head'] + ''.join(t + x for t, x in zip(toks[:i + 1], gaps[:i + 1]))
+    out = [('gap-literal', f'contains({str_lit(a + g + b)})'),
+           ('gap-literal', f'{str_lit((a + g + b).lower())} in description'),
+           ('gap-literal', f'startswith({str_lit(up_to + b)})'),
+           ('whole-line', f'description == {str_lit(sp["text"])}'),
+           ('single-blank-literal', f'contains({str_lit(a + " " + b)})'),
+           ('single-blank-literal', f'anyof({str_lit(a + " " + b)}, "ZZNEVER")'),
+           ('word-position', f'split(" ", {i + 1}) == {str_lit(b)}'),
+           ('word-position', f'split(" ", {i}) == {str_lit(a)}')]
+    family = [rx(a) + r'\s{2,}' + rx(b), rx(a) + r'\s' + rx(b), rx(a) + ' {2}' + rx(b), rx(a) + ' {3,}' + rx(b), rx(a) + r'\t' + rx(b),
+              rx(a) + '[ ]' + rx(b), rx(a) + r'\s\s+' + rx(b), rx(a) + r'[^\S ]+' + rx(b), rx(a) + r'\S*\s\S', r'^\S+\s{2,}', r'\s{3}', r'\s\s']
+    hits = [p for p in family if re.search(p, sp['text'], re.IGNORECASE)]
+    out += [('gap-regex', f'regex({rx_lit(p)})') for p in (hits or family)[:3] + [r.choice(family)]]
+    if sp['head']:
+        out += [('decoration', f'startswith({str_lit(sp["head"])})'), ('decoration', f'regex({rx_lit("^" + rx(sp["head"]))})')]
+    if sp['tail']:
+        out += [('decoration', f'regex({rx_lit(rx(sp["tail"]) + "$")})'), ('decoration', f'contains({str_lit(sp["tail"] if sp["tail"].strip() != sp["tail"] else toks[-1] + sp["tail"])})')]
+    edge = r.choice([r'^\W', r'\W$', r'^[A-Za-z]', r'[A-Za-z]$', r'#\d+$', r'\d$'])
+    out += [('decoration', f'regex({rx_lit(edge)})')]
+    return out
+
+
+def gen_spelling_budget(r):
+    import yaml
+    year = 2025
+    bases = r.sample(SPELL_BASES, r.choice([2, 3, 3, 4]))
+    # statement lines: each merchant two to four times, spelled differently (sometimes regularly), sometimes twice the same way
+    lines = []
+    for base in bases:
+        cents = r.choice([999, 1599, 4200, 12000, 7, 250075])
+        for _ in range(r.choice([2, 2, 3, 4])):
+            sp = spell(r, base, regular=r.random() < 0.25) if (not lines or r.random() < 0.85) else dict(r.choice(lines)['sp'])
+            lines.append({'sp': sp, 'base': base, 'cents': cents if r.random() < 0.7 else cents + r.choice([100, 5000])})
+    nsrc = r.choice([1, 1, 2])
+    sources, files = [], {}
+    r.shuffle(lines)
+    for i in range(nsrc):
+        mine = lines[i::nsrc]
+        cols = ['date', 'description', 'amount']
+        if r.random() < 0.3:
+            cols.insert(r.randint(0, 3), '_')
+        src = {'name': f'Bank{i}', 'file': f'data/b{i}.csv', 'format': ','.join('{date:%Y-%m-%d}' if c == 'date' else '{%s}' % c for c in cols)}
+        header = r.random() < 0.6
+        if not header or r.random() < 0.3:
+            src['has_header'] = header
+        text = [','.join(c.title() for c in cols)] if header else []
+        for ln in mine:
+            # the export pads the cell; the blanks around a cell are not part of the description
+            pad_l, pad_r = r.choice(['', '', ' ', '   ']), r.choice(['', '', ' ', '    ', '\t'])
+            cell = {'date': '%d-%02d-%02d' % (year, r.randint(1, 12), r.randint(1, 28)), 'description': pad_l + ln['sp']['text'] + pad_r,
+                    'amount': '%d.%02d' % divmod(ln['cents'], 100), '_': r.choice(['x', '', '77'])}
+            text.append(','.join(cell[c] for c in cols))
+        files[src['file']] = '\n'.join(text) + '\n'
+        sources.append(src)
+    # probes: lines that are NOT in the statements (an extra word makes them unique) but are spelled the way the export spells
+    probes, probe_sps = [], []
+    for _ in range(2):
+        sp = spell(r, r.choice(bases), tag=f'ZQ{r.randint(10, 99)}', regular=r.random() < 0.15)
+        probe_sps.append(sp)
+        probes.append((sp['text'], r.choice([5.0, 15.99, 42.0, 120.0, 2500.75])))
+    # rules: conditions written out from a probe or a statement line that depend on its spelling, BEFORE the rules that only need a word
+    rules, kinds = [], {}
+    for i in range(r.choice([2, 3, 3, 4])):
+        target = r.choice(probe_sps) if r.random() < 0.6 else r.choice(lines)['sp']
+        atoms = spelling_atoms(r, target)
+        kind, atom = r.choice(atoms)
+        kinds[kind] = kinds.get(kind, 0) + 1
+        k = r.random()
+        word = r.choice([t for t in target['toks'] if not t.upper().startswith('ZQ')])
+        if k < 0.6:
+            m = atom
+        elif k < 0.75:
+            m = f'{atom} and amount {r.choice(["<", ">="])} {r.choice([50, 1000])}'
+        elif k < 0.88:
+            m = f'contains({str_lit(word)}) and not ({atom})'
+        else:
+            m = f'({atom}) or amount == 2.5'
+        rule = {'name': f'S{i} {kind}', 'match': m}
+        tag_only = r.random() < 0.15
+        if not tag_only:
+            rule['category'] = r.choice(SPELL_CATEGORIES)
+            if r.random() < 0.5:
+                rule['subcategory'] = r.choice(['A', 'B'])
+        if tag_only or r.random() < 0.25:
+            rule['tags'] = r.sample(['business', 'recurring', 'x'], r.choice([1, 2]))
+        if r.random() < 0.15:
+            rule['lets'] = [('spelled', atom)]
+            rule['match'] = r.choice(['spelled', f'spelled and contains({str_lit(word)})'])
+        if r.random() < 0.2:
+            rule['priority'] = r.choice([10, 60, 100])
+        rules.append(rule)
+    for j, base in enumerate(bases):
+        if r.random() < 0.6:
+            w = r.choice(base)
+            m = r.choice([f'contains({str_lit(w)})', f'normalized({str_lit("".join(base[:2]))})', f'regex({rx_lit(rx(w))})', f'{str_lit(w.lower())} in description'])
+            rules.append({'name': f'W{j} any spelling', 'match': m, 'category': r.choice(SPELL_CATEGORIES), 'subcategory': 'Other'})
+    transforms = []
+    tk = r.random()
+    if tk < 0.12:
+        transforms.append(('field.description', 'regex_replace(field.description, "\\\\s+", " ")'))     # the user's OWN tidying: then for every command
+    elif tk < 0.2:
+        transforms.append(('field.description', 'regex_replace(field.description, "^[*#.( ]+", "")'))
+    elif tk < 0.26:
+        transforms.append(('field.description', 'regex_replace(field.description, "\\\\s*#\\\\d+$", "")'))
+    from ..gen import rules as GR
+    files['config/merchants.rules'] = GR.render_rules({'variables': {}, 'transforms': transforms, 'rules': rules})
+    settings = {'year': year, 'data_sources': sources, 'merchants_file': 'config/merchants.rules'}
+    mode = r.choice(['first_match', 'first_match', 'most_specific'])
+    if mode != 'first_match' or r.random() < 0.2:
+        settings['rule_mode'] = mode
+    files['config/settings.yaml'] = yaml.safe_dump(settings, sort_keys=False, allow_unicode=True)
+    irregular = lambda sp: any(g != ' ' for g in sp['gaps'])
+    by_words = {}
+    for ln in lines:
+        by_words.setdefault(' '.join(t.upper() for t in ln['sp']['toks']), set()).add(ln['sp']['text'])
+    shape = {'stream': 'spelling', 'supp_position': None, 'spelling_kinds': kinds, 'transform': bool(transforms),
+             'probes_with_irregular_gap': sum(1 for sp in probe_sps if irregular(sp)),
+             'probes_with_decoration': sum(1 for sp in probe_sps if sp['head'] or sp['tail']),
+             'lines_with_irregular_gap': sum(1 for ln in lines if irregular(ln['sp'])),
+             'lines': len(lines),
+             'same_words_spelled_differently': sum(1 for v in by_words.values() if len(v) >= 2)}
+    return {'files': files, 'kind': 'rules', 'probes': probes, 'shape': shape}
+
+
 def run_cmd(d, args):
     env = dict(os.environ, PYTHONPATH=os.path.join(common.REPO, 'src'), NO_COLOR='1', PYTHONDONTWRITEBYTECODE='1')
     p = subprocess.run([sys.executable, '-m', 'tally'] + args, cwd=d, env=env, stdin=subprocess.DEVNULL,
@@ -394,6 +578,7 @@ def observe(budget):
         for desc, amount in budget['probes']:
             rc, out, err = run_cmd(d, ['explain', desc, 'config', '--amount', str(amount), '--format', 'json'])
             obs['explain'].append(first_json(out))
+            obs.setdefault('explain_suggested', []).append('Did you mean' in err)
         obs['explain_merchant'] = {}
         if obs['up']:
             # every merchant of the report, in one invocation (explain takes several names and prints one JSON document each)
@@ -473,11 +658,16 @@ def oracle(budget, obs):
                               'discover_total': tot, 'up_total': m['total']})
                 break
     # explain(desc, amount) = up on the budget extended by that transaction
-    for (desc, amount), ex, upp in zip(budget['probes'], obs['explain'], obs['up_probe']):
+    suggested = obs.get('explain_suggested') or [False] * len(budget['probes'])
+    for (desc, amount), ex, upp, sugg in zip(budget['probes'], obs['explain'], obs['up_probe'], suggested):
         if upp is None:
             continue
         m = find_desc(upp, desc)
         if m is None:
+            continue
+        if ex is None and sugg and m['category'] == 'Unknown':
+            # no rule matches (as in `up`): instead of the Unknown entry explain lists merchants with a similar NAME ("Did you mean")
+            obs['explain_unknown_with_suggestion'] = obs.get('explain_unknown_with_suggestion', 0) + 1
             continue
         if ex is None or 'category' not in ex:
             fails.append({'class': 'explain-no-answer', 'budget': budget, 'description': desc, 'amount': amount, 'observed': ex})
@@ -540,11 +730,12 @@ def run(ctx):
     r = ctx.rng
     n = 40 if ctx.quick else 1200
     n2 = 24 if ctx.quick else 600
+    n3 = 24 if ctx.quick else 600
     if ctx.replay:
         ce = json.loads(common.read(ctx.replay)).get('counterexample', {})
         budgets = [ce['budget']] if 'budget' in ce else []
     else:
-        budgets = [gen_budget(r) for _ in range(n)] + [gen_repeating_budget(r) for _ in range(n2)]
+        budgets = [gen_budget(r) for _ in range(n)] + [gen_repeating_budget(r) for _ in range(n2)] + [gen_spelling_budget(r) for _ in range(n3)]
     with ThreadPoolExecutor(max_workers=16) as ex:
         observations = list(ex.map(observe, budgets))
     prop_fail, corr_fail = [], []
@@ -605,12 +796,42 @@ def run(ctx):
                        '(2) budgets whose statements REPEAT a line (same text and amount) on 2–4 dates, in several sources, with different values of a '
                        'captured column / location, under rules that look at month / year / day / weekday / date comparisons / source / field.<name> / '
                        'location (directly, negated, through a top-level variable or a let binding), chosen so that they separate two occurrences of '
-                       'one line. On each budget: up, discover, explain for two descriptions that do not occur in the data (with amounts) and explain '
-                       'for every merchant of the report (≤ 12), all in fresh processes; on (1) also up on the budget extended by each probed '
+                       'one line; (3) budgets whose statement lines and probed descriptions are SPELLED the way a bank export spells them — runs of '
+                       'blanks, a tab or a no-break space between the words, `*` `#` `.` `(` or a store number at either end, any capitalisation, the '
+                       'same words spelled several ways, padded cells — under rules written out from such a line that depend on its spelling '
+                       '(the gap as a literal in contains / startswith / in / ==, regex over the gap: \\s{2,} \\s \\t " {2}", word position via '
+                       'split, the decoration at either end) or that hold only for the regular spelling (single-blank literal), directly, negated, '
+                       'through a let binding, with a spelling-blind rule behind them, in both rule modes, sometimes under the user\'s own tidying '
+                       'transform. On each budget: up, discover, explain for two descriptions that do not occur in the data (with amounts) and explain '
+                       'for every merchant of the report (≤ 12), all in fresh processes; on (1) and (3) also up on the budget extended by each probed '
                        'transaction. Non-trivial = ≥ 2 merchants and a non-empty Unknown list')
     ctx.notes['budgets_with_unknown'] = sum(1 for o in observations if o['discover'])
     shapes = [b.get('shape') or {} for b in budgets]
-    ctx.notes['budgets_by_stream'] = {k: sum(1 for sh in shapes if sh.get('stream') == k) for k in ('description+amount', 'repeated-lines')}
+    ctx.notes['budgets_by_stream'] = {k: sum(1 for sh in shapes if sh.get('stream') == k) for k in ('description+amount', 'repeated-lines', 'spelling')}
+    # third stream: what the spelling-dependent conditions look at, how irregular the probed descriptions / statement lines are, and how often
+    # such a condition was DECISIVE in `up` (the probed transaction is classified by a rule written from a spelling, resp. left Unknown
+    # although a rule names its words)
+    sp_kinds, sp = {}, {'budgets': 0, 'with_transform': 0, 'probes': 0, 'probes_with_irregular_gap': 0, 'probes_with_decoration': 0, 'lines': 0,
+                        'lines_with_irregular_gap': 0, 'same_words_spelled_differently': 0, 'probes_classified_by_a_spelling_rule_in_up': 0,
+                        'probes_left_unknown_in_up': 0, 'explain_declined_unknown_with_suggestion': 0}
+    for b, sh, o in zip(budgets, shapes, observations):
+        if sh.get('stream') != 'spelling':
+            continue
+        sp['budgets'] += 1
+        sp['with_transform'] += bool(sh.get('transform'))
+        sp['probes'] += len(b['probes'])
+        for k in ('probes_with_irregular_gap', 'probes_with_decoration', 'lines', 'lines_with_irregular_gap', 'same_words_spelled_differently'):
+            sp[k] += sh.get(k, 0)
+        for k, v in (sh.get('spelling_kinds') or {}).items():
+            sp_kinds[k] = sp_kinds.get(k, 0) + v
+        sp['explain_declined_unknown_with_suggestion'] += o.get('explain_unknown_with_suggestion', 0)
+        for (desc, _), upp in zip(b['probes'], o['up_probe']):
+            m = find_desc(upp, desc) if upp else None
+            if m is not None:
+                sp['probes_classified_by_a_spelling_rule_in_up'] += bool(m['category'] != 'Unknown' and m['name'].startswith('S'))
+                sp['probes_left_unknown_in_up'] += m['category'] == 'Unknown'
+    ctx.notes['spelling_stream'] = sp
+    ctx.notes['spelling_conditions_by_kind'] = sp_kinds
     ctx.notes['supplemental_source_named_in'] = {k: sum(1 for sh in shapes if sh.get('supp_position') == k) for k in SUPP_POSITIONS}
     kinds = {}
     for sh in shapes:
@@ -630,13 +851,13 @@ def run(ctx):
     ctx.notes['budgets_where_up_used_the_supplemental_rule'] = sum(
         1 for o in observations if o['up'] and any(m['name'] == 'Ordered' for m in o['up']['merchants']))
     ctx.notes['merchants_explained'] = sum(len(o.get('explain_merchant_asked', [])) for o in observations)
-    for b in budgets[:2] + budgets[n:n + 1]:
+    for b in budgets[:2] + budgets[n:n + 1] + budgets[n + n2:n + n2 + 1]:
         ctx.sample({'rules': b['files']['config/merchants.rules'][:400], 'probes': b['probes'], 'shape': b.get('shape')})
 
     def search():
         out = []
         for i in range(120):
-            b = gen_budget(r) if i % 2 == 0 else gen_repeating_budget(r)
+            b = (gen_budget, gen_repeating_budget, gen_spelling_budget)[i % 3](r)
             out.extend(oracle(b, observe(b)))
             if out:
                 break
